@@ -1,4 +1,4 @@
-import ShuttleProofs.Lemmas.KernelSim
+import ShuttleProofs.Lemmas.KernelDecision
 /-!
 # Concrete programs and schedulers used by the non-vacuity examples of C08 / C13 / C03
 -/
